@@ -285,6 +285,37 @@ def w_grid(cs):
     return [job(2, 3, 0x10, 0xAAAA), job(3, 1, 0x40, 0xBBBB), job(4, 2, 0x80, 0xCCCC)]
 
 
+def w_lebdump(cs):
+    T = cs.s
+
+    def job(a, b, arr):
+        def f():
+            o = T(a=a, b=b, n=len(arr), arr=arr, c=-b)
+            d = o.dumps()
+            return (d, norm(T(d)), T.fields["a"].type.dumps(a), T.fields["b"].type.dumps(b))
+        return f
+    # every thread *writes* variable-length values of several bytes (positive, negative, large)
+    return [job(300, -129, [70000, 1 << 40, 64]), job((1 << 63) + 5, -(1 << 35), [128, 16384, (1 << 70) + 1]),
+            job(0x4000, -65, [0x7F, 0x80, 0xFFFF])]
+
+
+def w_anonlen(cs):
+    T, O = cs.s, cs.outer
+
+    def job(count, vals, tail):
+        d = bytes([0x11, count]) + b"".join(v.to_bytes(2, "little") for v in vals) + bytes([tail]) + b"\xEE" * 4
+
+        def f():
+            s = io.BytesIO(d)
+            o = T(s)
+            s2 = io.BytesIO(bytes([9]) + d)
+            p = O(s2)
+            return (norm(o), s.tell(), o.dumps() == d[: s.tell()], norm(p), s2.tell())
+        return f
+    # the length of the array is a field of a preceding anonymous member; a constant of the same name exists
+    return [job(3, [10, 11, 12], 0xCC), job(2, [20, 21], 0xDD), job(0, [], 0x01)]
+
+
 def w_wsurrogate(cs):
     T = cs.s
 
@@ -341,6 +372,12 @@ WORKLOADS = [
     # a union whose first member is not its largest: written directly and compared with its terminator while parsing
     ("unionwrite", "union U { uint8 tag; uint32 value; uint16 half[2]; };\nstruct s { uint8 n; U items[]; uint8 tail; };",
      w_unionwrite),
+    # several threads write LEB128 values of more than one byte
+    ("lebdump", "struct s { uleb128 a; ileb128 b; uint8 n; uleb128 arr[n]; ileb128 c; };", w_lebdump),
+    # an array sized by a field of a preceding anonymous member (the reader folds those names into its context), next
+    # to a constant of the same name; also nested one level down
+    ("anonlen", "#define count 1\nstruct s { uint8 kind; struct { uint8 count; }; uint16 values[count]; uint8 tail; };\n"
+                "struct outer { uint8 h; s inner; };", w_anonlen),
     # NUL-terminated wide strings with characters of two code units (a decoder fed unit by unit holds state in between)
     ("wsurrogate", "struct s { uint8 id; wchar name[]; uint16 crc; };", w_wsurrogate),
     # instances that are constructed, not parsed: members left at their defaults are changed in place below the top level
